@@ -1,3 +1,4 @@
+import FastQr.Props.C11Masks
 import FastQr.Proofs.ScoreEq
 import FastQr.Proofs.CandidateLight
 import FastQr.Proofs.ScoreBounds
